@@ -10,7 +10,11 @@ Open Scope N_scope.
 Definition cache_sound (E : env) (c : list (str * ptree)) : Prop :=
   forall k t, lookup k c = Some t -> e_parse E k = Some t.
 Definition tpl_orig (tp : N -> tpls) : Prop := forall c, tp c = tpl0.
-Definition wf (E : env) (w : world) : Prop := tpl_orig (w_tpl w) /\ cache_sound E (w_cache w).
+Definition wf0 (E : env) (w : world) : Prop := tpl_orig (w_tpl w) /\ cache_sound E (w_cache w).
+(* a cached value list of an external-source transformation object is what its source yields *)
+Definition vcs (E : env) (w : world) : Prop :=
+  forall i it d v, w_vc w i = Some v -> valid_pair E i it -> i_tr it = TFile d -> e_src E d = Ok v.
+Definition wf (E : env) (w : world) : Prop := wf0 E w /\ vcs E w.
 
 (* everything but the per-rule fields, the counters and the type-hint cache is untouched *)
 Definition same_frame (w w' : world) : Prop :=
@@ -101,7 +105,7 @@ Lemma cache_parse_ideal E w k : cache_sound E (w_cache w) ->
   snd (cache_parse E w k) = (if mem c_pipe k then SigmaErr E_Condition else
                              match e_parse E k with Some t => Ok t | None => SigmaErr E_Condition end)
   /\ cache_sound E (w_cache w') /\ w_tpl w' = w_tpl w /\ w_owner w' = w_owner w /\ w_ps w' = w_ps w
-  /\ w_bks w' = w_bks w /\ w_next w' = w_next w.
+  /\ w_bks w' = w_bks w /\ w_next w' = w_next w /\ w_vc w' = w_vc w.
 Proof.
   intros Hc. unfold cache_parse. destruct (mem c_pipe k); [simpl; repeat split; try reflexivity; exact Hc|].
   destruct (lookup k (w_cache w)) as [t|] eqn:El.
@@ -115,16 +119,16 @@ Qed.
 (* ---------- conditions ---------- *)
 (* what the rest of a world looks like after converting conditions *)
 Definition same_conv (w w' : world) : Prop :=
-  w_owner w' = w_owner w /\ w_ps w' = w_ps w /\ w_bks w' = w_bks w /\ w_next w' = w_next w.
+  w_owner w' = w_owner w /\ w_ps w' = w_ps w /\ w_bks w' = w_bks w /\ w_next w' = w_next w /\ w_vc w' = w_vc w.
 
-Lemma conv_conds_ideal E cls dets : forall ks w, wf E w ->
+Lemma conv_conds_ideal E cls dets : forall ks w, wf0 E w ->
   let w' := fst (conv_conds E cls dets w ks) in
   snd (conv_conds E cls dets w ks) = omap (ideal_cond E (e_ne E cls) dets) ks
-  /\ wf E w' /\ same_conv w w'.
+  /\ wf0 E w' /\ same_conv w w'.
 Proof.
   induction ks as [|k ks IH]; intros w [Ht Hc]; simpl.
   - split; [reflexivity|]. split; [split; assumption | repeat split].
-  - destruct (cache_parse_ideal E w k Hc) as [Hp [Hc1 [Ht1 [Ho1 [Hps1 [Hb1 Hn1]]]]]].
+  - destruct (cache_parse_ideal E w k Hc) as [Hp [Hc1 [Ht1 [Ho1 [Hps1 [Hb1 [Hn1 Hv1]]]]]]].
     destruct (cache_parse E w k) as [w1 pt]. simpl in *. subst pt.
     unfold ideal_cond at 1. destruct (mem c_pipe k); simpl;
       [split; [reflexivity|]; split; [split; [rewrite Ht1; exact Ht | exact Hc1]|];
@@ -134,11 +138,11 @@ Proof.
       * assert (Ht1' : tpl_orig (w_tpl w1)) by (rewrite Ht1; exact Ht).
         destruct (render_ideal (e_ne E cls) cls ct false (w_tpl w1) Ht1') as [H1 H2].
         destruct (render (e_ne E cls) cls false ct (w_tpl w1)) as [tp q]. simpl in H1, H2. subst q.
-        assert (Hwf2 : wf E (set_tplw w1 tp)) by (split; [exact H1 | exact Hc1]).
+        assert (Hwf2 : wf0 E (set_tplw w1 tp)) by (split; [exact H1 | exact Hc1]).
         destruct (ideal_render (e_ne E cls) false ct) as [s|e|e]; simpl.
         -- specialize (IH (set_tplw w1 tp) Hwf2).
            destruct (conv_conds E cls dets (set_tplw w1 tp) ks) as [w3 r]. simpl in IH.
-           destruct IH as [Hr [Hwf3 [Ho3 [Hps3 [Hb3 Hn3]]]]]. simpl. subst r.
+           destruct IH as [Hr [Hwf3 [Ho3 [Hps3 [Hb3 [Hn3 Hv3]]]]]]. simpl. subst r.
            split; [destruct (omap _ ks); reflexivity|]. split; [exact Hwf3|].
            unfold same_conv. simpl in *. repeat split; congruence.
         -- split; [reflexivity|]. split; [exact Hwf2|]. unfold same_conv; simpl; repeat split; assumption.
@@ -154,35 +158,103 @@ Qed.
 (* ---------- pipeline application ---------- *)
 Lemma wr_owner_frame w o f : same_frame w (wr_owner w o f).
 Proof. destruct o; simpl; [apply same_frame_set_ps | apply same_frame_refl]. Qed.
+Lemma wr_owner_vc w o f : w_vc (wr_owner w o f) = w_vc w.
+Proof. destruct o; reflexivity. Qed.
 
-Lemma apply_items_frame : forall its w L r, same_frame w (fst (apply_items w L r its)).
+Lemma vcs_ext E w w' : w_vc w' = w_vc w -> vcs E w -> vcs E w'.
+Proof. intros H Hv i it d v Hc. rewrite H in Hc. apply (Hv i it d v Hc). Qed.
+
+Lemma iid_eqb_eq a b : iid_eqb a b = true -> a = b.
+Proof.
+  destruct a as [s n], b as [t m]. unfold iid_eqb. simpl. intros H. apply andb_true_iff in H. destruct H as [H1 H2].
+  apply Nat.eqb_eq in H2. subst m. f_equal.
+  destruct s, t; simpl in H1; try discriminate;
+    repeat (apply andb_true_iff in H1; destruct H1 as [? H1]);
+    repeat match goal with H : N.eqb _ _ = true |- _ => apply N.eqb_eq in H end; subst; reflexivity.
+Qed.
+
+(* _get_values: nothing but the value cache changes; the cache stays sound; the caller gets what the
+   source yields now *)
+Lemma fetch_vals_facts E w i it rd r : vcs E w -> valid_pair E i it ->
+  let w0 := fst (fetch_vals E w i it rd r) in
+  same_frame w w0 /\ w_ps w0 = w_ps w /\ vcs E w0 /\
+  item_step rd r it (snd (fetch_vals E w i it rd r)) = item_step rd r it (src_vals E it).
+Proof.
+  intros Hv Hval. unfold fetch_vals, src_vals. destruct (i_tr it) as [k v|m| |d] eqn:Et;
+    try (simpl; split; [apply same_frame_refl|]; split; [reflexivity|]; split; [exact Hv | reflexivity]).
+  destruct (wants_values rd r it) eqn:Ew.
+  - unfold get_values. destruct (w_vc w i) as [v|] eqn:Ec.
+    + simpl. split; [apply same_frame_refl|]. split; [reflexivity|]. split; [exact Hv|].
+      rewrite (Hv i it d v Ec Hval Et). reflexivity.
+    + destruct (e_src E d) as [v|e|e] eqn:Es; simpl;
+        try (split; [apply same_frame_refl|]; split; [reflexivity|]; split; [exact Hv | reflexivity]).
+      split; [repeat split|]. split; [reflexivity|]. split; [|reflexivity].
+      intros j jt d' v' Hc Hvj Hj. simpl in Hc. destruct (iid_eqb j i) eqn:Ej.
+      * apply iid_eqb_eq in Ej. subst j. inversion Hc; subst v'.
+        unfold valid_pair in Hval, Hvj. rewrite Hval in Hvj. inversion Hvj; subst jt.
+        rewrite Et in Hj. inversion Hj; subst d'. exact Es.
+      * apply (Hv j jt d' v' Hc Hvj Hj).
+  - simpl. split; [apply same_frame_refl|]. split; [reflexivity|]. split; [exact Hv|].
+    unfold wants_values in Ew. rewrite Et in Ew. unfold item_step. rewrite Et.
+    destruct (eval_rcond rd r (i_cond it)); [|reflexivity]. simpl in Ew. rewrite Ew. reflexivity.
+Qed.
+
+Lemma fetch_vals_frame E w i it rd r :
+  same_frame w (fst (fetch_vals E w i it rd r)) /\ w_ps (fst (fetch_vals E w i it rd r)) = w_ps w.
+Proof.
+  unfold fetch_vals. destruct (i_tr it); try (split; [apply same_frame_refl | reflexivity]).
+  destruct (wants_values rd r it); [|split; [apply same_frame_refl | reflexivity]].
+  unfold get_values. destruct (w_vc w i); [split; [apply same_frame_refl | reflexivity]|].
+  destruct (e_src E d); simpl; split; try apply same_frame_refl; try reflexivity. repeat split.
+Qed.
+
+Lemma apply_items_frame E : forall its w L r, same_frame w (fst (apply_items E w L r its)).
 Proof.
   induction its as [|[i it] its IH]; intros w L r; simpl; [apply same_frame_refl|].
-  destruct (is_res (item_step (rd_owner w (w_owner w i)) r it)) as [r'|e]; simpl.
-  - eapply same_frame_trans; [|apply IH].
+  destruct (fetch_vals_frame E w i it (rd_owner w (w_owner w i)) r) as [F _].
+  destruct (fetch_vals E w i it (rd_owner w (w_owner w i)) r) as [w0 vals]. simpl in F.
+  destruct (is_res (item_step (rd_owner w (w_owner w i)) r it vals)) as [r'|e]; simpl.
+  - eapply same_frame_trans; [exact F|]. eapply same_frame_trans; [|apply IH].
     eapply same_frame_trans; [apply wr_owner_frame | apply same_frame_set_ps].
-  - apply wr_owner_frame.
+  - eapply same_frame_trans; [exact F | apply wr_owner_frame].
+Qed.
+
+Lemma apply_items_vcs E : forall its w L r, vcs E w ->
+  (forall p, In p its -> valid_pair E (fst p) (snd p)) -> vcs E (fst (apply_items E w L r its)).
+Proof.
+  induction its as [|[i it] its IH]; intros w L r Hv Hval; simpl; [exact Hv|].
+  destruct (fetch_vals_facts E w i it (rd_owner w (w_owner w i)) r Hv (Hval (i, it) (or_introl eq_refl))) as [_ [_ [Hv0 _]]].
+  destruct (fetch_vals E w i it (rd_owner w (w_owner w i)) r) as [w0 vals]. simpl in Hv0.
+  destruct (is_res (item_step (rd_owner w (w_owner w i)) r it vals)) as [r'|e]; simpl.
+  - apply IH; [|intros p Hp; apply Hval; right; exact Hp].
+    eapply vcs_ext; [|exact Hv0]. simpl. apply wr_owner_vc.
+  - eapply vcs_ext; [apply wr_owner_vc | exact Hv0].
 Qed.
 
 (* when every item points to the pipeline being applied, the loop is the specification's loop on
-   that pipeline's own fields *)
-Lemma apply_items_ideal : forall its w L r,
-  (forall p, In p its -> w_owner w (fst p) = Some L) ->
-  snd (apply_items w L r its) = snd (ideal_items (w_ps w L) r (map snd its)) /\
-  w_ps (fst (apply_items w L r its)) L = fst (ideal_items (w_ps w L) r (map snd its)).
+   that pipeline's own fields, and a cached value list is what the source yields *)
+Lemma apply_items_ideal E : forall its w L r,
+  (forall p, In p its -> w_owner w (fst p) = Some L) -> vcs E w ->
+  (forall p, In p its -> valid_pair E (fst p) (snd p)) ->
+  snd (apply_items E w L r its) = snd (ideal_items E (w_ps w L) r (map snd its)) /\
+  w_ps (fst (apply_items E w L r its)) L = fst (ideal_items E (w_ps w L) r (map snd its)).
 Proof.
-  induction its as [|[i it] its IH]; intros w L r Hown; simpl; [split; reflexivity|].
+  induction its as [|[i it] its IH]; intros w L r Hown Hv Hval; simpl; [split; reflexivity|].
   pose proof (Hown (i, it) (or_introl eq_refl)) as Hi. simpl in Hi. rewrite Hi. simpl.
-  set (st := item_step (w_ps w L) r it).
+  destruct (fetch_vals_facts E w i it (w_ps w L) r Hv (Hval (i, it) (or_introl eq_refl))) as [[_ [_ [Fo _]]] [Fps [Hv0 Hst]]].
+  destruct (fetch_vals E w i it (w_ps w L) r) as [w0 vals]. simpl in Fo, Fps, Hv0, Hst. rewrite Hst.
+  set (st := item_step (w_ps w L) r it (src_vals E it)).
   destruct (is_res st) as [r'|e] eqn:Er; simpl.
-  - set (w1 := set_ps (set_ps w L (is_upd st (w_ps w L))) L
-                      (note_applied it (is_match st) (w_ps (set_ps w L (is_upd st (w_ps w L))) L))).
+  - set (w1 := set_ps (set_ps w0 L (is_upd st (w_ps w0 L))) L
+                      (note_applied it (is_match st) (w_ps (set_ps w0 L (is_upd st (w_ps w0 L))) L))).
     assert (Hps : w_ps w1 L = note_applied it (is_match st) (is_upd st (w_ps w L))).
-    { unfold w1. simpl. rewrite Nat.eqb_refl. reflexivity. }
+    { unfold w1. simpl. rewrite Nat.eqb_refl, Fps. reflexivity. }
     assert (Hown1 : forall p, In p its -> w_owner w1 (fst p) = Some L).
-    { intros p Hp. unfold w1. simpl. apply Hown. right. exact Hp. }
-    destruct (IH w1 L r' Hown1) as [H1 H2]. rewrite Hps in H1, H2. split; assumption.
-  - split; [reflexivity|]. rewrite Nat.eqb_refl. reflexivity.
+    { intros p Hp. unfold w1. simpl. rewrite Fo. apply Hown. right. exact Hp. }
+    assert (Hv1 : vcs E w1) by (eapply vcs_ext; [|exact Hv0]; reflexivity).
+    destruct (IH w1 L r' Hown1 Hv1 (fun p Hp => Hval p (or_intror Hp))) as [H1 H2].
+    rewrite Hps in H1, H2. split; assumption.
+  - split; [reflexivity|]. rewrite Nat.eqb_refl, Fps. reflexivity.
 Qed.
 
 Lemma tagp_map_snd s its : map snd (tagp s its) = its.
@@ -197,6 +269,28 @@ Proof.
   destruct user; simpl; [rewrite tagp_map_snd|]; reflexivity.
 Qed.
 
+Lemma tagp_valid_gen (s : src) : forall (its : list item) (a : nat) (p : iid * item),
+  In p (combine (map (fun k => (s, k)) (seq a (List.length its))) its) ->
+  fst (fst p) = s /\ (a <= snd (fst p))%nat /\ nth_error its (snd (fst p) - a) = Some (snd p).
+Proof.
+  induction its as [|x its IH]; intros a p H; simpl in H; [destruct H|].
+  destruct H as [H|H].
+  - subst p. simpl. split; [reflexivity|]. split; [lia|]. rewrite Nat.sub_diag. reflexivity.
+  - destruct (IH (S a) p H) as [H1 [H2 H3]]. split; [exact H1|]. split; [lia|].
+    replace (snd (fst p) - a)%nat with (S (snd (fst p) - S a)) by lia. simpl. exact H3.
+Qed.
+Lemma tagp_valid (s : src) (its : list item) (p : iid * item) : In p (tagp s its) -> fst (fst p) = s /\ nth_error its (snd (fst p)) = Some (snd p).
+Proof.
+  intros H. destruct (tagp_valid_gen s its 0%nat p H) as [H1 [_ H3]]. rewrite Nat.sub_0_r in H3. tauto.
+Qed.
+Lemma pipe_pairs_valid E cls user fmt p : In p (pipe_pairs E cls user fmt) -> valid_pair E (fst p) (snd p).
+Proof.
+  unfold pipe_pairs. rewrite !in_app_iff. unfold valid_pair. intros [H|[H|H]].
+  - apply tagp_valid in H. destruct H as [H1 H2]. rewrite H1. exact H2.
+  - destruct user as [o|]; [|destruct H]. apply tagp_valid in H. destruct H as [H1 H2]. rewrite H1. exact H2.
+  - apply tagp_valid in H. destruct H as [H1 H2]. rewrite H1. exact H2.
+Qed.
+
 (* ---------- one rule ---------- *)
 Definition owned (E : env) (w : world) (bk : backend) (L : nat) (f : N) : Prop :=
   forall p, In p (pipe_pairs E (b_cls bk) (b_user bk) f) -> w_owner w (fst p) = Some L.
@@ -207,25 +301,28 @@ Lemma conv_with_ideal E w L lfmt bk fmt r : wf E w -> owned E w bk L lfmt ->
   /\ w_ps w' L = fst (ideal_rule E (b_cls bk) (b_user bk) lfmt fmt r)
   /\ wf E w' /\ w_owner w' = w_owner w /\ w_bks w' = w_bks w /\ w_next w' = w_next w.
 Proof.
-  intros [Ht Hc] Hown. unfold conv_with, ideal_rule.
+  intros [[Ht Hc] Hv] Hown. unfold conv_with, ideal_rule.
   set (w2 := set_ps w L ps0).
   assert (Hown2 : forall p, In p (pipe_pairs E (b_cls bk) (b_user bk) lfmt) -> w_owner w2 (fst p) = Some L)
     by (intros p Hp; apply Hown; exact Hp).
-  destruct (apply_items_ideal _ w2 L r Hown2) as [H1 H2].
-  pose proof (apply_items_frame (pipe_pairs E (b_cls bk) (b_user bk) lfmt) w2 L r) as [F1 [F2 [F3 [F4 F5]]]].
+  assert (Hv2 : vcs E w2) by (eapply vcs_ext; [|exact Hv]; reflexivity).
+  destruct (apply_items_ideal E _ w2 L r Hown2 Hv2 (pipe_pairs_valid E _ _ _)) as [H1 H2].
+  pose proof (apply_items_frame E (pipe_pairs E (b_cls bk) (b_user bk) lfmt) w2 L r) as [F1 [F2 [F3 [F4 F5]]]].
+  pose proof (apply_items_vcs E (pipe_pairs E (b_cls bk) (b_user bk) lfmt) w2 L r Hv2 (pipe_pairs_valid E _ _ _)) as Hv3.
   rewrite pipe_pairs_defs in H1, H2.
   assert (Hps2 : w_ps w2 L = ps0) by (unfold w2; simpl; rewrite Nat.eqb_refl; reflexivity).
   rewrite Hps2 in H1, H2.
-  destruct (apply_items w2 L r (pipe_pairs E (b_cls bk) (b_user bk) lfmt)) as [w3 res].
-  destruct (ideal_items ps0 r (pipe_defs E (b_cls bk) (b_user bk) lfmt)) as [ps res']. simpl in *. subst res' ps.
+  destruct (apply_items E w2 L r (pipe_pairs E (b_cls bk) (b_user bk) lfmt)) as [w3 res].
+  destruct (ideal_items E ps0 r (pipe_defs E (b_cls bk) (b_user bk) lfmt)) as [ps res']. simpl in *. subst res' ps.
   destruct res as [r'|e]; simpl.
-  - assert (Hwf3 : wf E w3) by (split; [rewrite F1; exact Ht | rewrite F2; exact Hc]).
-    destruct (conv_conds_ideal E (b_cls bk) (r_dets r') (r_conds r') w3 Hwf3) as [Hq [Hwf4 [Ho4 [Hps4 [Hb4 Hn4]]]]].
+  - assert (Hwf3 : wf0 E w3) by (split; [rewrite F1; exact Ht | rewrite F2; exact Hc]).
+    destruct (conv_conds_ideal E (b_cls bk) (r_dets r') (r_conds r') w3 Hwf3) as [Hq [Hwf4 [Ho4 [Hps4 [Hb4 [Hn4 Hv4]]]]]].
     destruct (conv_conds E (b_cls bk) (r_dets r') w3 (r_conds r')) as [w4 qs]. simpl in *. subst qs.
-    split; [reflexivity|]. split; [rewrite Hps4; reflexivity|]. split; [exact Hwf4|].
+    split; [reflexivity|]. split; [rewrite Hps4; reflexivity|].
+    split; [split; [exact Hwf4 | eapply vcs_ext; [exact Hv4 | exact Hv3]]|].
     repeat split; congruence.
   - split; [reflexivity|]. split; [reflexivity|].
-    split; [split; [rewrite F1; exact Ht | rewrite F2; exact Hc]|]. repeat split; assumption.
+    split; [split; [split; [rewrite F1; exact Ht | rewrite F2; exact Hc] | exact Hv3]|]. repeat split; assumption.
 Qed.
 
 (* without any assumption on the owner links the invariant is still kept *)
@@ -233,15 +330,17 @@ Lemma conv_with_wf E w L lfmt bk fmt r : wf E w ->
   let w' := fst (conv_with E w L lfmt bk fmt r) in
   wf E w' /\ w_owner w' = w_owner w /\ w_bks w' = w_bks w /\ w_next w' = w_next w.
 Proof.
-  intros [Ht Hc]. unfold conv_with. set (w2 := set_ps w L ps0).
-  pose proof (apply_items_frame (pipe_pairs E (b_cls bk) (b_user bk) lfmt) w2 L r) as [F1 [F2 [F3 [F4 F5]]]].
-  destruct (apply_items w2 L r (pipe_pairs E (b_cls bk) (b_user bk) lfmt)) as [w3 res]. simpl in *.
-  assert (Hwf3 : wf E w3) by (split; [rewrite F1; exact Ht | rewrite F2; exact Hc]).
+  intros [[Ht Hc] Hv]. unfold conv_with. set (w2 := set_ps w L ps0).
+  assert (Hv2 : vcs E w2) by (eapply vcs_ext; [|exact Hv]; reflexivity).
+  pose proof (apply_items_frame E (pipe_pairs E (b_cls bk) (b_user bk) lfmt) w2 L r) as [F1 [F2 [F3 [F4 F5]]]].
+  pose proof (apply_items_vcs E (pipe_pairs E (b_cls bk) (b_user bk) lfmt) w2 L r Hv2 (pipe_pairs_valid E _ _ _)) as Hv3.
+  destruct (apply_items E w2 L r (pipe_pairs E (b_cls bk) (b_user bk) lfmt)) as [w3 res]. simpl in *.
+  assert (Hwf3 : wf0 E w3) by (split; [rewrite F1; exact Ht | rewrite F2; exact Hc]).
   destruct res as [r'|e]; simpl.
-  - destruct (conv_conds_ideal E (b_cls bk) (r_dets r') (r_conds r') w3 Hwf3) as [_ [Hwf4 [Ho4 [Hps4 [Hb4 Hn4]]]]].
+  - destruct (conv_conds_ideal E (b_cls bk) (r_dets r') (r_conds r') w3 Hwf3) as [_ [Hwf4 [Ho4 [Hps4 [Hb4 [Hn4 Hv4]]]]]].
     destruct (conv_conds E (b_cls bk) (r_dets r') w3 (r_conds r')) as [w4 qs]. simpl in *.
-    split; [exact Hwf4|]. repeat split; congruence.
-  - split; [exact Hwf3|]. repeat split; assumption.
+    split; [split; [exact Hwf4 | eapply vcs_ext; [exact Hv4 | exact Hv3]]|]. repeat split; congruence.
+  - split; [split; [exact Hwf3 | exact Hv3]|]. repeat split; assumption.
 Qed.
 
 (* ---------- init ---------- *)
@@ -259,7 +358,7 @@ Proof.
   rewrite H. reflexivity.
 Qed.
 Lemma init_wf E w b bk fmt : wf E w -> wf E (init_pipeline E w b bk fmt).
-Proof. intros [H1 H2]. split; assumption. Qed.
+Proof. intros [[H1 H2] H3]. split; [split; assumption | exact H3]. Qed.
 
 Lemma nth_error_set_nth {A} (l : list A) : forall n x y, nth_error l n = Some y -> nth_error (set_nth n x l) n = Some x.
 Proof.
@@ -279,10 +378,6 @@ Lemma snap_set w b bk L f : nth_error (w_bks w) b = Some bk -> b_last bk = Some 
   snap w b = Some (w_ps w L).
 Proof. intros H1 H2. unfold snap. rewrite H1, H2. reflexivity. Qed.
 
-Lemma load_frame w r : w_tpl (load w r) = w_tpl w /\ w_cache (load w r) = w_cache w /\
-  w_owner (load w r) = w_owner w /\ w_bks (load w r) = w_bks w /\ w_next (load w r) = w_next w /\
-  w_ps (load w r) = w_ps w.
-Proof. repeat split. Qed.
 Lemma load_wf E w r : wf E w -> wf E (load w r).
 Proof. intros H. exact H. Qed.
 
@@ -342,15 +437,17 @@ Qed.
 Lemma fold_load_frame rs : forall w, w_tpl (fold_left load rs w) = w_tpl w /\ w_cache (fold_left load rs w) = w_cache w
   /\ w_bks (fold_left load rs w) = w_bks w.
 Proof. induction rs as [|r rs IH]; intros w; simpl; [repeat split | apply (IH (load w r))]. Qed.
+Lemma fold_load_wf E rs : forall w, wf E w -> wf E (fold_left load rs w).
+Proof. induction rs as [|r rs IH]; intros w H; simpl; [exact H | apply IH; apply load_wf; exact H]. Qed.
 
 Lemma frame_coll E w b bk fmt rs :
   wf E w -> nth_error (w_bks w) b = Some bk ->
   out_obs (snd (step E w (OConvColl b rs fmt))) = ideal_obs_coll E (b_cls bk) (b_user bk) (b_collect bk) fmt rs.
 Proof.
-  intros [Ht Hc] Hb. simpl. rewrite Hb.
+  intros Hwf Hb. simpl. rewrite Hb.
   set (wl := fold_left load rs w). destruct (fold_load_frame rs w) as [F1 [F2 F3]]. fold wl in F1, F2, F3.
   set (w0 := init_pipeline E wl b bk fmt).
-  assert (Hwf0 : wf E w0) by (apply init_wf; split; [rewrite F1; exact Ht | rewrite F2; exact Hc]).
+  assert (Hwf0 : wf E w0) by (apply init_wf; apply fold_load_wf; exact Hwf).
   set (bk0 := {| b_cls := b_cls bk; b_user := b_user bk; b_collect := b_collect bk; b_last := Some (w_next wl, fmt) |}).
   assert (Hex : exists bk1, nth_error (w_bks w0) b = Some bk1 /\ b_last bk1 = Some (w_next wl, fmt) /\ b_cls bk1 = b_cls bk
                             /\ b_user bk1 = b_user bk /\ owned E w0 bk1 (w_next wl) fmt).
@@ -385,9 +482,7 @@ Proof.
   - exact Hwf.
   - destruct (nth_error (w_bks w) b); simpl; [apply init_wf|]; exact Hwf.
   - destruct (nth_error (w_bks w) b) as [bk|]; simpl; [|exact Hwf].
-    assert (H0 : wf E (init_pipeline E (fold_left load rs w) b bk fmt)).
-    { apply init_wf. destruct Hwf as [Ht Hc]. destruct (fold_load_frame rs w) as [F1 [F2 _]].
-      split; [rewrite F1; exact Ht | rewrite F2; exact Hc]. }
+    assert (H0 : wf E (init_pipeline E (fold_left load rs w) b bk fmt)) by (apply init_wf; apply fold_load_wf; exact Hwf).
     pose proof (conv_rules_wf E b fmt (b_collect bk) rs _ [] [] H0) as H.
     destruct (conv_rules E (init_pipeline E (fold_left load rs w) b bk fmt) b fmt (b_collect bk) rs [] []) as [[w1 q] errs].
     exact H.
@@ -400,7 +495,9 @@ Proof.
 Qed.
 
 Lemma init_world_wf E : wf E init.
-Proof. split; [intros c; reflexivity | intros k t H; discriminate]. Qed.
+Proof.
+  split; [split; [intros c; reflexivity | intros k t H; discriminate] | intros i it d v H; discriminate].
+Qed.
 
 Lemma run_wf E : forall ops w, wf E w -> wf E (fst (run E w ops)).
 Proof.
@@ -454,8 +551,11 @@ Proof.
   - reflexivity.
 Qed.
 
-(* class templates and parse cache after any history *)
+(* class templates, parse cache and external-source value caches after any history *)
 Theorem invariant_reachable E ops :
   let w := fst (run E init ops) in
-  (forall c, w_tpl w c = tpl0) /\ (forall k t, lookup k (w_cache w) = Some t -> e_parse E k = Some t).
-Proof. intros w. apply run_wf. apply init_world_wf. Qed.
+  (forall c, w_tpl w c = tpl0) /\ (forall k t, lookup k (w_cache w) = Some t -> e_parse E k = Some t) /\
+  (forall i it d v, w_vc w i = Some v -> valid_pair E i it -> i_tr it = TFile d -> e_src E d = Ok v).
+Proof.
+  intros w. destruct (run_wf E ops init (init_world_wf E)) as [[H1 H2] H3]. split; [exact H1|]. split; [exact H2 | exact H3].
+Qed.
